@@ -9,12 +9,15 @@
      describe  parsePEMBlock;  cert_info parseCertificate;  enc_name EncryptionAlgorithm().Name
      secret    java.UnmarshalReader on a SealedObject (secret_ok: consumes exactly the blob) *)
 From WI Require Import Lib.Base Lib.Info Lib.Strings Lib.Time Model.Containers Proofs.Containers.
+From WI Require Model.Base64.
 Open Scope N_scope.
 
 (* ---------------- authorized_keys / known_hosts ---------------- *)
 
-(* For ALL layouts — any sequence of entry lines, blank lines (any mix of space, tab, VT, FF, CR) and
-   comment lines (optional white space, '#', any text), LF or CRLF line endings, and 0, 1, 2, ... line
+(* For ALL layouts — any sequence of entry lines, blank lines (nothing but white-space runes in the sense of
+   unicode.IsSpace: TAB, VT, FF, CR, SPACE, U+0085, U+00A0, U+1680, U+2000..U+200A, U+2028, U+2029, U+202F,
+   U+205F, U+3000; or such white space up to a CR and anything after it) and comment lines (optional white
+   space of that kind, '#', any text: NUL bytes, CRs, any length), LF or CRLF line endings, and 0, 1, 2, ... line
    endings after the last line — the report is "SSH authorized_keys" with exactly one child per entry,
    in input order, child i carrying the attributes of entry i.  layout_ok: an entry line starts with a
    visible character other than '#' and contains no LF/CR; a comment's text contains no LF. *)
@@ -35,7 +38,9 @@ Theorem C06_known_hosts : forall lib its le trail,
 Proof. exact known_hosts_layout. Qed.
 Print Assumptions C06_known_hosts.
 
-(* the hypotheses are met by a realistic file (comment, key, blank, commented-out key, key, empty line) *)
+(* the hypotheses are met by a realistic file (comment, key, blank lines of ASCII and of Unicode white space (NBSP,
+   U+3000), commented-out key, a comment after U+2003 and a TAB with NUL and CR in its text, key, a line
+   that is blank up to its CR, empty line) *)
 Theorem C06_ssh_example : layout_ok example_layout = true /\
   (forall e, In e (entries_of example_layout) -> lib_accepts toy_lib e) /\
   entries_of example_layout = [toy_k1; toy_k2].
@@ -67,6 +72,98 @@ Theorem C06_known_hosts_refuted : exists lib its le trail,
   exists k, known_hosts lib (render its le trail) = Ok (Info (bs "SSH known_hosts") [] k) /\ length k = 1%nat.
 Proof. exact known_hosts_pre_refuted. Qed.
 Print Assumptions C06_known_hosts_refuted.
+
+(* ---------------- the lines, field by field ---------------- *)
+
+(* lib is no longer abstract: ssh_auth_lib / ssh_hosts_lib (Model/Containers.v) re-model, from
+   golang.org/x/crypto v0.28.0 ssh/keys.go, how ParseAuthorizedKey / ParseKnownHosts cut a line into fields
+   (CR cut, TrimSpace, options scanner with quotes and escaped quotes, bytes.Fields, marker, base64 field,
+   comment) down to ssh.ParsePublicKey on the decoded blob, which stays a parameter (key_of).  The
+   correspondence check compares them with the library on every chunk of every generated file and on
+   single lines (op sshline). *)
+
+(* the CR half of lib_accepts is a theorem of the model: what follows the first CR of a line is never looked at *)
+Theorem C06_ssh_line_cr : forall key_of l x,
+  auth_line key_of (l ++ 13 :: x) = auth_line key_of l /\ hosts_line key_of (l ++ 13 :: x) = hosts_line key_of l.
+Proof. intros. split; [apply auth_line_cr|apply hosts_line_cr]. Qed.
+Print Assumptions C06_ssh_line_cr.
+
+(* the file theorems with the modelled line parsers: all that is asked of an entry line is that it is accepted *)
+Theorem C06_authorized_keys_model : forall key_of its le trail,
+  layout_ok its = true ->
+  (forall e, In e (entries_of its) -> exists a, ssh_auth_lib key_of e = Ok a) ->
+  authorized_keys (ssh_auth_lib key_of) (render its le trail) =
+    Ok (Info (bs "SSH authorized_keys") [] (map (ssh_child (ssh_auth_lib key_of)) (entries_of its))).
+Proof. exact authorized_keys_model. Qed.
+Print Assumptions C06_authorized_keys_model.
+
+Theorem C06_known_hosts_model : forall key_of its le trail,
+  layout_ok its = true ->
+  (forall e, In e (entries_of its) -> exists a, ssh_hosts_lib key_of e = Ok a) ->
+  known_hosts (ssh_hosts_lib key_of) (render its le trail) =
+    Ok (Info (bs "SSH known_hosts") [] (map (ssh_child (ssh_hosts_lib key_of)) (entries_of its))).
+Proof. exact known_hosts_model. Qed.
+Print Assumptions C06_known_hosts_model.
+
+(* One authorized_keys line, for EVERY entry written field by field (auth_entry_ok, boolean): blanks, optional
+   options field (any bytes; every quoted string closed, a backslash escapes a quote, blanks only inside
+   quotes: opts_ok) and blanks, key type (no blank inside), blanks, base64 field (visible ASCII), then nothing
+   or a blank and any text that does not end in white space, blanks; no CR/LF.  The line is accepted, the
+   key is the one of the base64 field and the comment is the rest of the line, trimmed.  With options:
+   provided the text after the first blank of the line is not itself "base64 of a key blob, comment" -
+   the library tries that first (known finding C06-ssh-quoted-key shows the hypothesis cannot be dropped). *)
+Theorem C06_authorized_keys_line : forall key_of e key k,
+  auth_entry_ok e = true ->
+  Base64.std_decode Base64.Std (ae_b64 e) = Some key -> key_of key = Ok k ->
+  (ae_opts e <> [] -> exists err, parse_key_field key_of (snd (span_word (auth_core e))) = Err err) ->
+  ssh_auth_lib key_of (auth_text e) = Ok (key_attrs k (trim_space (ae_tail e))).
+Proof. exact auth_lib_entry. Qed.
+Print Assumptions C06_authorized_keys_line.
+
+(* One known_hosts line: blanks, optional marker "@..." and blanks, host patterns, blanks, key type, blanks,
+   base64 field, up to two comment words (one after a marker) each after blanks, blanks; words made of
+   bytes that are neither ASCII white space nor the first byte of the UTF-8 encoding of a white-space rune
+   (hosts_entry_ok).  Accepted; Hosts is the comma-separated list re-joined with ", ", the key is the one
+   of the base64 field, the comment is the comment words joined by single blanks. *)
+Theorem C06_known_hosts_line : forall key_of e key k,
+  hosts_entry_ok e = true ->
+  Base64.std_decode Base64.Std (he_b64 e) = Some key -> key_of key = Ok k ->
+  ssh_hosts_lib key_of (hosts_text e) = Ok (hosts_attr (he_hosts e) :: key_attrs k (join [32] (map snd (he_comment e)))).
+Proof. exact hosts_lib_entry. Qed.
+Print Assumptions C06_known_hosts_line.
+
+(* Files whose entries are written field by field, every layout of blank and comment lines, LF/CRLF, any number
+   of trailing line endings: child i is "SSH public key" with Type and key attributes of the blob of entry i's
+   base64 field and entry i's comment - no hypothesis about the line parsers is left, only about
+   ssh.ParsePublicKey on the decoded blobs (auth_key_ok) *)
+Theorem C06_authorized_keys_fields : forall key_of kinfo its le trail,
+  forallb aitem_ok its = true ->
+  (forall e, In e (aentries its) -> auth_key_ok key_of e (kinfo e)) ->
+  authorized_keys (ssh_auth_lib key_of) (render (map aitem_item its) le trail) =
+    Ok (Info (bs "SSH authorized_keys") [] (map (auth_child kinfo) (aentries its))).
+Proof. exact authorized_keys_fields. Qed.
+Print Assumptions C06_authorized_keys_fields.
+
+Theorem C06_known_hosts_fields : forall key_of kinfo its le trail,
+  forallb hitem_ok its = true ->
+  (forall e, In e (hentries its) -> exists key, Base64.std_decode Base64.Std (he_b64 e) = Some key /\ key_of key = Ok (kinfo e)) ->
+  known_hosts (ssh_hosts_lib key_of) (render (map hitem_item its) le trail) =
+    Ok (Info (bs "SSH known_hosts") [] (map (hosts_child kinfo) (hentries its))).
+Proof. exact known_hosts_fields. Qed.
+Print Assumptions C06_known_hosts_fields.
+
+(* the hypotheses are met: a plain entry; an entry with leading blank, options  command="say \"hi\" # x",no-pty,
+   a tab, two blanks before the key, a two-word comment and trailing blanks; known_hosts entries with two hosts and a
+   two-word comment, and with a marker *)
+Theorem C06_ssh_fields_example :
+  (forallb auth_entry_ok example_auth_entries = true /\
+   forall e, In e example_auth_entries ->
+     auth_key_ok toy_key_of e (bs "ssh-toy", [(bs "Size", dec_of_N (N.of_nat (length (ae_b64 e) / 4 * 3)))])) /\
+  (forallb hosts_entry_ok example_hosts_entries = true /\
+   forall e, In e example_hosts_entries -> exists key, Base64.std_decode Base64.Std (he_b64 e) = Some key /\
+     toy_key_of key = Ok (bs "ssh-toy", [(bs "Size", dec_of_N (N.of_nat (length (he_b64 e) / 4 * 3)))])).
+Proof. exact (conj example_auth_ok example_hosts_ok). Qed.
+Print Assumptions C06_ssh_fields_example.
 
 (* ---------------- PEM bundles ---------------- *)
 
@@ -110,6 +207,66 @@ Theorem C06_pem_loop_fuel : forall dec describe,
 Proof. intros dec describe H. split; [exact (pem_loop_fuel dec describe H)|exact (pem_loop_no_fuel_error dec describe H)]. Qed.
 Print Assumptions C06_pem_loop_fuel.
 
+(* ---------------- PEM bundles, about the bytes of the file ---------------- *)
+
+(* No hypothesis about encoding/pem is left: dec is pem_dec, the Gallina model of pem.Decode
+   (Model/Pem.v, go1.23.5 encoding/pem/pem.go, compared with the real decoder at every "-----BEGIN " of
+   every generated case), and a block is written by [armor]: BEGIN line, header lines + empty line (if
+   any), the base64 of the body in lines of any width (0: one line), END line, LF or CRLF per block; the
+   END line of the last block may end the file.  bundle_text_ok (boolean): block_ok for every block
+   (label without LF; header lines with ':' and without LF; body octets < 256; an empty block without
+   headers has no ':' in its label), no piece of text between the blocks brings a "-----BEGIN " of its
+   own, only the last block may be unterminated.  For EVERY such file PEMFile lists exactly the non-PGP
+   blocks, in order. *)
+Theorem C06_pem_bundle_bytes : forall describe d items tail,
+  bundle_text_ok items tail = true ->
+  (forall b, In b (listed_blocks items) -> describe (ablock_block b) = Ok (d (ablock_block b))) ->
+  pem_file pem_dec describe (bundle_text items tail) =
+    match map (fun b => d (ablock_block b)) (listed_blocks items) with
+    | [] => Err "no valid PEM blocks"
+    | [i] => Ok i
+    | k => Ok (Info (bs "multiple PEM blocks") [] k)
+    end.
+Proof. exact pem_file_bytes. Qed.
+Print Assumptions C06_pem_bundle_bytes.
+
+(* dec_enc itself, proved of the model of pem.Decode for every armored block and every continuation *)
+Theorem C06_pem_decode_armor : forall b rest, block_ok b = true -> (ab_fin b = true \/ rest = []) ->
+  pem_dec (armor b ++ rest) = Some (ablock_block b, rest).
+Proof. exact pem_dec_armor. Qed.
+Print Assumptions C06_pem_decode_armor.
+
+(* with at least two listed blocks, child i is what PEMFile reports for block i alone - however that
+   block is written when it stands alone (line width, line endings, headers, final newline) *)
+Theorem C06_as_if_alone_pem_bytes : forall describe d items tail,
+  bundle_text_ok items tail = true ->
+  (forall b, In b (listed_blocks items) -> describe (ablock_block b) = Ok (d (ablock_block b))) ->
+  (2 <= length (listed_blocks items))%nat ->
+  exists children,
+    pem_file pem_dec describe (bundle_text items tail) = Ok (Info (bs "multiple PEM blocks") [] children) /\
+    length children = length (listed_blocks items) /\
+    Forall2 (fun b c => forall b', ablock_block b' = ablock_block b -> block_ok b' = true ->
+                          pem_file pem_dec describe (armor b') = Ok c) (listed_blocks items) children.
+Proof. exact pem_as_if_alone_bytes. Qed.
+Print Assumptions C06_as_if_alone_pem_bytes.
+
+(* pem.Decode (the model) always returns a strictly shorter rest, so PEMFile's loop terminates on every
+   input: the fuel of the model is never exhausted and the result does not depend on it *)
+Theorem C06_pem_terminates : forall describe,
+  (forall r b r', pem_dec r = Some (b, r') -> (length r' < length r)%nat) /\
+  (forall f1 f2 rest, (length rest < f1)%nat -> (length rest < f2)%nat ->
+     pem_loop pem_dec describe f1 rest = pem_loop pem_dec describe f2 rest) /\
+  ((forall b, describe b <> Err "fuel") ->
+   forall f rest, (length rest < f)%nat -> pem_loop pem_dec describe f rest <> Err "fuel").
+Proof. intros describe. split; [exact pem_dec_shorter|exact (pem_dec_loop_fuel describe)]. Qed.
+Print Assumptions C06_pem_terminates.
+
+(* the hypotheses are met by a bundle with leading text, a CRLF block, a block with headers in lines of 48,
+   PGP armor, an empty block and a last block in one line whose END line ends the file *)
+Theorem C06_pem_bytes_example : bundle_text_ok example_blocks [] = true /\ length (listed_blocks example_blocks) = 4%nat.
+Proof. exact example_blocks_ok. Qed.
+Print Assumptions C06_pem_bytes_example.
+
 (* ---------------- Java keystores ---------------- *)
 
 (* The stream codec round trip, for every list of entries the format can represent (jentry_ok: field
@@ -126,6 +283,28 @@ Theorem C06_jks : forall secret cert_info enc_name desc magic version ebs mac,
     Ok (Info desc [] (map (entry_child cert_info enc_name) (map fst ebs))).
 Proof. exact keystore_file_encode. Qed.
 Print Assumptions C06_jks.
+
+(* Nothing is outside: conversely, EVERY stream of octets that InsecureParse accepts is the writing of the entries
+   it returns - jks_encode of entries that meet jentry_ok, with either magic, any version field, any 20-octet
+   digest and, for a SecretKeyEntry, the octets the sealed-object reader consumed.  So the writer of C06_jks can
+   represent everything the reader accepts (JCEKS secret-key entries under either magic, chains of length 0,
+   aliases of any octets up to 65535, every 64-bit timestamp, unknown entry types without a body) and the
+   quantifier of C06_jks ranges over all accepted keystores. *)
+Theorem C06_jks_complete : forall secret data es, bytes_ok data = true -> jks_parse secret data = Ok es ->
+  exists magic version ebs mac,
+    magic_ok magic /\ version < 4294967296 /\ N.of_nat (length ebs) < 4294967296 /\ length mac = 20%nat /\
+    forallb (fun eb => jentry_ok (fst eb)) ebs = true /\ map fst ebs = es /\
+    data = jks_encode magic version ebs mac.
+Proof. exact jks_parse_complete. Qed.
+Print Assumptions C06_jks_complete.
+
+(* and every accepted keystore is reported with one child per entry of the stream, in stream order *)
+Theorem C06_jks_accepted : forall secret cert_info enc_name desc data es,
+  jks_parse secret data = Ok es ->
+  (forall e, In e es -> certs_calm cert_info (je_certs e)) ->
+  keystore_file cert_info enc_name true secret desc data = Ok (Info desc [] (map (entry_child cert_info enc_name) es)).
+Proof. exact keystore_file_accepted. Qed.
+Print Assumptions C06_jks_accepted.
 
 (* inside an entry: the children are the chain, complete and in order, then the key; a certificate
    that parses is described exactly as parseCertificate describes it on its own *)
